@@ -66,7 +66,33 @@ async def run_sessions(spec: dict[str, Any], hist: History,
             if s.alive:
                 await s.fetch_all()
 
-        await asyncio.gather(*(client(s) for s in sessions))
+        async def deliverer(s: Session) -> None:
+            # authenticated, never has INBOX selected: its deliveries hand
+            # \\Recent to *another* session's live selection
+            if not await s.start():
+                return
+            other = False
+            for _ in range(spec['ncmds']):
+                if not s.alive:
+                    break
+                r = s.rng.random()
+                if r < 0.6:
+                    fl = [b'\\Deleted'] if s.rng.random() < 0.5 else None
+                    await s.append(b'INBOX', fl)
+                elif r < 0.8:
+                    await s.append(b'Other', None)
+                else:
+                    if not other:
+                        other = (await s.select(b'Other')).ok
+                    if other and s.shadow.count:
+                        await s.copy(b'1:*', b'INBOX')
+
+        tasks = [client(s) for s in sessions]
+        if spec.get('deliverer'):
+            d = Session(env, hist, spec['nsess'] + 1, sched,
+                        spec['seed'] * 31 + 77)
+            tasks.append(deliverer(d))
+        await asyncio.gather(*tasks)
         return env
     finally:
         env.cleanup()
@@ -131,7 +157,8 @@ class C01(Check):
             yield {'seed': seed * 1_000_003 + i, 'backend': backend,
                    'nsess': nsess, 'nmsgs': rng.randint(3, 8),
                    'ncmds': rng.randint(3, 12 if backend == 'dict' else 7),
-                   'sched': schedule_family(rng, nsess)}
+                   'sched': schedule_family(rng, nsess),
+                   'deliverer': rng.random() < 0.4}
 
     def setup_worker(self) -> None:
         install_glass()
